@@ -1,4 +1,5 @@
 import Autog.Lemmas.Adj
+import Autog.Lemmas.BreakFuel
 import Autog.Lemmas.BlockWide
 import Autog.Json
 import Autog.Model.Pre
@@ -95,6 +96,7 @@ def tfunLayout (cfg : Cfg) (es : InEdges) (comps : List (List (Int × G))) (real
             | some (rp, rm) => out := out ++ [("T:ns-pivots", (pv : Int) == rp && (mx : Int) == rm, s!"model {pv}/{mx} pivots, code {rp}/{rm}")]
             | none => pure ()
       out := out ++ [cmpG "T:layers" (buildLayers { b with layers := #[] }) b]
+      out := out ++ [("K:breakWF", breakWFb b, "the state a layerer handed over has an edge outside the stores, pointing upwards by more than one layer, or longer than the layer list")]
     | _, _ => pure ()
     -- phase 3: long edges are broken exactly as the model says; the heuristic only permutes positions
     match stageOf c 2, stageOf c 3 with
